@@ -66,7 +66,7 @@ Definition expand_align {A} (out_len : nat) (rows : list nat) (lists : list (opt
   let sizes := map (fun r => match lookupn r ps with Some l => length l | None => 0 end) (seq 0 out_len) in
                                                                        (* sizes[rows + 1] = value_lengths *)
   {| la_offsets := cumsum_from 0 sizes;                                (* np.cumsum *)
-     la_values := concat (map snd ps);                                 (* lists.values *)
+     la_values := concat (map snd ps);                                 (* lists.flatten() *)
      la_null := map (fun r => negb (memn r (map fst ps))) (seq 0 out_len) |}.   (* mask[rows] = False *)
 
 (* ---------------------------------------------------------------- scalar placement *)
